@@ -95,8 +95,10 @@ func (H) Generate(prop string, rng *rand.Rand, tier string) any {
 			}
 		case r < 15:
 			s.Kind = "advance"
-		case r < 17:
+		case r < 16:
 			s.Kind = "setkeys"
+		case r < 17:
+			s.Kind = "reset"
 		case r < 18:
 			s.Kind = "dev"
 		default:
@@ -220,6 +222,9 @@ func (H) Reset() {
 	config.VerifSimMuteEvents()
 	api.VerifSimResetPackage()
 	api.VerifSimResetRun()
+	if err := api.VerifSimRegisterMeta(); err != nil {
+		panic(err)
+	}
 	rng.VerifSimSeed([]byte("verif deterministic seed 0123456789abcdef"))
 }
 
@@ -363,6 +368,21 @@ func (H) Execute(prop string, plan any, rc *simkit.RunCtx) {
 		case "dev":
 			_ = config.SetConfigOption(config.CfgDevModeKey, st.Dev)
 			s.dev = st.Dev
+		case "reset":
+			// the client resets its authentication: its session is gone afterwards
+			if len(s.sessions) == 0 {
+				break
+			}
+			k := st.Cookie % len(s.sessions)
+			req := httptest.NewRequest("GET", "http://"+hosts[0]+"/api/v1/auth/reset", nil)
+			req.Host = hosts[0]
+			req.RemoteAddr = "10.1.2.3:5555"
+			req.AddCookie(&http.Cookie{Name: "Portmaster-API-Token", Value: s.sessions[k].value})
+			rec := httptest.NewRecorder()
+			h.ServeHTTP(rec, req)
+			// (kept in the model as a dead session, so that the old cookie is presented again later)
+			s.sessions[k].validUntil = time.Time{}.Add(time.Hour)
+			rc.Probe("session-reset")
 		case "clean":
 			api.VerifSimCleanSessions()
 		case "setkeys":
